@@ -28,7 +28,7 @@ _COMMON_ASSUME = [
 ]
 
 SPEC = {
-    "C01": dict(engine="lifesim", level="exploration", runs=dict(quick=1500, thorough=40000), chunk=10,
+    "C01": dict(engine="lifesim", level="exploration", runs=dict(quick=1500, thorough=15000), chunk=10,
                 rule="lifesim histories (seeded op sequences over screens and their files); a run is non-trivial "
                      "if at least one Screen construction with a batchie-produced superset mapping was monitored; "
                      "distinct = distinct (arity, control style, #mapping entries beyond the rows, op multiset, "
@@ -36,19 +36,19 @@ SPEC = {
                 real=REAL, stub=STUB,
                 assumptions=_COMMON_ASSUME + ["C01 is a statement about a pure encoder; simulation only reaches it through "
                                               "histories (supplied superset mappings, reload, reveal) and the stored-mapping faults"]),
-    "C02": dict(engine="lifesim", level="exploration", runs=dict(quick=1500, thorough=40000), chunk=10,
+    "C02": dict(engine="lifesim", level="exploration", runs=dict(quick=1500, thorough=12000), chunk=10,
                 rule="lifesim histories with save/load at arbitrary points; non-trivial if at least one reload of a "
                      "screen whose mapping lists conditions absent from its rows, or with non-ASCII/empty names, was "
                      "compared; distinct = distinct (arity, alphabet, mapping-excess, mask pattern class, cycles) tuples",
                 real=REAL, stub=STUB,
                 assumptions=_COMMON_ASSUME + ["no torn files: the property promises nothing about them"]),
-    "C03": dict(engine="lifesim", level="exploration", runs=dict(quick=1500, thorough=40000), chunk=10,
+    "C03": dict(engine="lifesim", level="exploration", runs=dict(quick=1500, thorough=12000), chunk=10,
                 rule="prepared simulations (hold-out split with a condition forced into hold-out-only rows in >= half "
                      "of the runs) followed by seeded reveal/mask/unmask/save/load histories on both halves; non-trivial "
                      "if some sample or (treatment,dose) is absent from a live screen's rows but present in the frozen "
                      "mapping; distinct = distinct (which side lacks it, op sequence shape) tuples",
                 real=REAL, stub=STUB, assumptions=_COMMON_ASSUME),
-    "C12": dict(engine="lifesim", level="exploration", runs=dict(quick=1500, thorough=40000), chunk=10,
+    "C12": dict(engine="lifesim", level="exploration", runs=dict(quick=1500, thorough=12000), chunk=10,
                 rule="seeded mask/unmask/reveal/save/load/set_observed histories with reveal id sets that include "
                      "already observed, repeated and unknown ids and with poisoned plates (all-zero / NaN); non-trivial "
                      "if at least one reveal changed the mask; distinct = distinct (op sequence shape, reveal modes, "
@@ -95,6 +95,16 @@ def gen_plan(prop, run_seed, tier):
                                     wseed=w.randrange(2**31), generator=s.choice([None, "PlatePermutationPlateGenerator"]))
     elif prop == "C12":
         spec = gen.gen_screen(w, observed_rate=w.choice([0.0, 0.3, 0.6]))
+        if w.random() < 0.3:
+            # stored values of either sign that cancel exactly over a plate (or overflow to +-inf): neither all zero nor NaN
+            by_plate = {}
+            for r in spec["rows"]:
+                by_plate.setdefault(r[3], []).append(r)
+            for p in w.sample(sorted(by_plate), w.randint(1, len(by_plate))):
+                rs = by_plate[p]
+                pat = w.choice([[0.5, -0.5], [0.25, -0.125, -0.125], [1e16, 1.0, -1e16], [float("inf"), float("-inf")], [2.0, -2.0, 0.0]])
+                for i, r in enumerate(rs):
+                    r[2] = pat[i % len(pat)] if len(rs) >= 2 else r[2]
         plan["screen"] = spec
         plan["prepare"] = dict(fraction=w.choice([0.0, 0.3]), seed=w.randrange(2**31)) if w.random() < 0.3 else None
         n_steps = s.randint(2, 16 if tier == "quick" else 40)
